@@ -1,5 +1,7 @@
 import Afkak.Monitor.C14
-/-! # C14 — full-strength (trace-level) statements that are NOT (yet) proved. -/
+/-! # C14 — full-strength (trace-level) statements.  `C14_delays` and `C14_never_skips_trace` are proved
+(`AfkakProps/C14.lean`); `C14_attempt_limit` is NOT (yet) proved; `C14_reset_policy_trace` is refuted for configurations the
+constructor refuses (`C14_reset_policy_trace_counterexample`), the part that holds is `C14_reset_policy_trace_partial`. -/
 namespace Afkak.Props.Open.C14
 open Afkak.Consumer Afkak.Monitor
 
